@@ -195,9 +195,12 @@ def judge : List String → String
       else
         let canonical := bs.all fun b => decide b.canonical
         let inside := insideAny (bs.map Block.canon) p
+        -- statement: "authenticates a request if and only if the TCP peer address lies inside one of them".
+        -- `t` is "authenticates"; `f` and `err` are both "does not" — whether the library answers false or
+        -- (false, error) for a peer that is outside (or is no address at all) is not fixed by the statement.
         if v == "t" && !inside then "viol admitted-outside-netblocks"
         else if canonical && p != .noPort && inside && v != "t" then "viol refused-inside-netblocks"
-        else if canonical && v == "err" && p != .noPort then "viol error-on-wellformed-certificate"
+        -- statement: "the netblocks read back from a certificate equal the ones it was minted with"
         else if canonical && x != sResBlocks (.ok bs) then "viol extract-differs-from-minted"
         else if !canonical && x != "err" && x != sResBlocks (.ok (bs.map Block.canon)) then "viol extract-neither-error-nor-canonical"
         else "ok"
@@ -208,13 +211,21 @@ def judge : List String → String
     | some (e, _), some p =>
       if v == "PANIC" || x == "PANIC" then "viol panic"
       else match e with
-        | .absent => if v == "t" then "viol admitted-without-extension" else if x != "err" then "viol extract-without-extension" else "ok"
-        | .unparsable => if v != "err" then "viol unparsable-not-error" else if x != "err" then "viol extract-unparsable" else "ok"
+        -- statement: "Malformed or oversized address extensions in an otherwise trusted certificate are rejected
+        -- without crashing and never widen access": rejected = not `t` (false or an error, either way) and no
+        -- netblocks read out of the malformed part; never a panic (above).
+        | .absent => if v == "t" then "viol admitted-without-extension"
+                     else if x.startsWith "ok:" && x != "ok:-" then "viol extract-without-extension" else "ok"
+        | .unparsable => if v == "t" then "viol admitted-on-unparsable-extension"
+                         else if x.startsWith "ok:" && x != "ok:-" then "viol extract-unparsable" else "ok"
         | .parsed fs =>
+          let v4 := fs.filter fun f => f.afi == v4afi
           if v == "t" && !(p != .noPort && allowedBy fs p) then "viol admitted-by-malformed-or-foreign-block"
-          else if x.startsWith "ok:" && !(fs.all fun f => f.afi == v4afi && f.addrs.all wellFormed) then
+          -- netblocks are read back only from well-formed IPv4 prefixes (whether a foreign family makes the
+          -- reader fail or is skipped is not fixed by the statement), and they are exactly those prefixes
+          else if x.startsWith "ok:" && !(v4.all fun f => f.addrs.all wellFormed) then
             "viol extracted-from-malformed-extension"
-          else if x.startsWith "ok:" && x != sResBlocks (.ok (fs.flatMap fun f => f.addrs.map blockOf)) then
+          else if x.startsWith "ok:" && x != sResBlocks (.ok (v4.flatMap fun f => f.addrs.map blockOf)) then
             "viol extracted-blocks-differ"
           else "ok"
     | _, _ => "bad-op"
